@@ -206,7 +206,11 @@ def run_wire(pid, tier, seed, replay):
             cnt = (10 if pid != "C13" else 14) * n
             if prof == "twrap":
                 cnt = 4 * n         # (frames of 64 KiB .. 1 MiB)
-            jobs.append((["tcp-wire", "--profile", prof, "--count", cnt, "--seed", seed * 100 + 50 + i, "--seg", "single" if quick else "all"],
+            segm = "single" if quick else "all"
+            if prof in ("tbig", "twrap"):
+                # bodies of up to 8 MiB: more streams in the thorough tier, not more cuts of each
+                cnt, segm = (14 if quick else 40) if prof == "tbig" else cnt, "single"
+            jobs.append((["tcp-wire", "--profile", prof, "--count", cnt, "--seed", seed * 100 + 50 + i, "--seg", segm],
                          "WireTcpTrace", "tcp-%s.ndjson" % prof, "socket streams %s" % prof, ports(1 + i)))
     if pid in ("C11", "C12"):
         # back-pressure on the write path: answers far beyond the socket buffers, read at once / late / in drips
